@@ -417,35 +417,32 @@ Definition union_pending {A} (s : ustate A) : list (list A) :=
   u_right s ++ match u_buf s with Some b => [b] | None => [] end ++ u_left s.
 
 Definition union_inv {A} (l r : list (list A)) (s : ustate A) : Prop :=
-  rev (u_out s) ++ union_pending s = r ++ l /  (u_draining s = true -> u_right s = []) /  (u_push_finished s = true -> u_left s = []) /  (u_done s = true -> u_draining s = true /\ u_buf s = None /\ u_push_finished s = true).
+  rev (u_out s) ++ union_pending s = r ++ l /\
+  (u_draining s = true -> u_right s = []) /\
+  (u_push_finished s = true -> u_left s = []) /\
+  (u_done s = true -> u_draining s = true /\ u_buf s = None /\ u_push_finished s = true).
 
 Lemma union_init_inv {A} (l r : list (list A)) : union_inv l r (union_init l r).
 Proof. unfold union_inv, union_init, union_pending. cbn. repeat split; discriminate. Qed.
 
 Lemma union_step_inv {A} (l r : list (list A)) e s : union_inv l r s -> union_inv l r (union_step e s).
 Proof.
-  destruct s as [sl sr buf pf dr dn out]. unfold union_inv, union_step, union_pending.
+  destruct s as [sl sr buf pf dr dn out]. unfold union_inv, union_pending.
   cbn [u_left u_right u_buf u_push_finished u_draining u_done u_out].
   intros (Heq & Hdr & Hpf & Hdn).
-  destruct e.
-  - destruct pf eqn:Epf; [repeat split; assumption|].
-    destruct sl as [|b l'].
-    + cbn [u_left u_right u_buf u_push_finished u_draining u_done u_out]. repeat split; auto; apply Hdn; assumption.
-    + destruct buf as [b0|]; [repeat split; assumption|].
-      cbn [u_left u_right u_buf u_push_finished u_draining u_done u_out].
-      repeat split; auto; try discriminate; try (apply Hdn; assumption).
-      intros Hd. destruct (Hdn Hd) as (_ & _ & Hx). discriminate.
-  - destruct dn eqn:Edn; [repeat split; assumption|]. destruct dr eqn:Edr; cbn [negb].
-    + destruct buf as [b|].
-      * cbn [u_left u_right u_buf u_push_finished u_draining u_done u_out].
-        repeat split; auto; try discriminate.
-        rewrite (Hdr eq_refl) in *. cbn [rev app] in *. rewrite <- app_assoc. exact Heq.
-      * destruct pf eqn:Epf; cbn [u_left u_right u_buf u_push_finished u_draining u_done u_out];
-          repeat split; auto; discriminate.
-    + destruct sr as [|b r'];
-        cbn [u_left u_right u_buf u_push_finished u_draining u_done u_out];
-        repeat split; auto; try discriminate.
-      cbn [rev app] in *. rewrite <- app_assoc. exact Heq.
+  destruct e; unfold union_step;
+    cbn [u_left u_right u_buf u_push_finished u_draining u_done u_out];
+    destruct pf, dn, dr, sl as [|b1 sl], sr as [|b2 sr], buf as [b3|];
+    cbn [negb u_left u_right u_buf u_push_finished u_draining u_done u_out rev app] in *;
+    try (specialize (Hdr eq_refl)); try (specialize (Hpf eq_refl)); try (specialize (Hdn eq_refl));
+    try (match goal with H : _ :: _ = [] |- _ => discriminate H end);
+    try (match goal with H : _ /\ _ /\ _ |- _ => destruct H as (Hd1 & Hd2 & Hd3); discriminate end);
+    repeat (try assumption; match goal with
+            | |- _ /\ _ => split
+            | |- _ -> _ => intros ?
+            end);
+    try discriminate; try assumption; try reflexivity;
+    try (rewrite <- app_assoc; exact Heq).
 Qed.
 
 Lemma union_run_inv {A} (l r : list (list A)) sched : forall s, union_inv l r s -> union_inv l r (union_run sched s).
@@ -459,7 +456,7 @@ Qed.
    before that it is a prefix of it *)
 Theorem union_concat : forall (A : Type) (l r : list (list A)) (sched : list uevent),
   let s := union_run sched (union_init l r) in
-  (exists rest, concat r ++ concat l = union_output s ++ rest) /  (u_done s = true -> union_output s = concat r ++ concat l).
+  (exists rest, concat r ++ concat l = union_output s ++ rest) /\ (u_done s = true -> union_output s = concat r ++ concat l).
 Proof.
   intros A l r sched s.
   destruct (union_run_inv l r sched _ (union_init_inv l r)) as (Heq & Hdr & Hpf & Hdn). fold s in Heq, Hdr, Hpf, Hdn.
@@ -472,7 +469,7 @@ Qed.
 
 (* the hypothesis `u_done = true` is reachable: a concrete schedule *)
 Example union_concat_sat :
-  let s := union_run [UPush; UExec; UPush; UExec; UExec; UPush; UExec; UPush; UExec; UExec]
+  let s := union_run [UPush; UExec; UPush; UExec; UExec; UExec; UPush; UExec; UPush; UExec]
                      (union_init [[1; 2]; [3]] [[10]; [20; 30]]) in
   u_done s = true /\ union_output s = [10; 20; 30; 1; 2; 3].
 Proof. vm_compute. auto. Qed.
